@@ -26,16 +26,19 @@ type KeyedMutex[T comparable] struct {
 
 func (km *KeyedMutex[T]) LockKey(key T) {
 	m, _ := km.m.LoadOrStore(key, &sync.Mutex{})
+	verifMuLock(m)
 	m.Lock()
 }
 
 func (km *KeyedMutex[T]) TryLockKey(key T) bool {
 	m, _ := km.m.LoadOrStore(key, &sync.Mutex{})
+	verifYield("KeyedMutex.TryLockKey")
 	return m.TryLock()
 }
 
 func (km *KeyedMutex[T]) UnlockKey(key T) {
 	m, _ := km.m.LoadOrStore(key, &sync.Mutex{})
+	verifMuUnlocked(m)
 	m.Unlock()
 }
 
@@ -57,31 +60,37 @@ type KeyedRWMutex[T comparable] struct {
 
 func (km *KeyedRWMutex[T]) LockKey(key T) {
 	m, _ := km.m.LoadOrStore(key, &sync.RWMutex{})
+	verifRWLock(m)
 	m.Lock()
 }
 
 func (km *KeyedRWMutex[T]) TryLockKey(key T) bool {
 	m, _ := km.m.LoadOrStore(key, &sync.RWMutex{})
+	verifYield("KeyedRWMutex.TryLockKey")
 	return m.TryLock()
 }
 
 func (km *KeyedRWMutex[T]) UnlockKey(key T) {
 	m, _ := km.m.LoadOrStore(key, &sync.RWMutex{})
+	verifRWUnlocked(m)
 	m.Unlock()
 }
 
 func (km *KeyedRWMutex[T]) RLockKey(key T) {
 	m, _ := km.m.LoadOrStore(key, &sync.RWMutex{})
+	verifRWRLock(m)
 	m.RLock()
 }
 
 func (km *KeyedRWMutex[T]) TryRLockKey(key T) bool {
 	m, _ := km.m.LoadOrStore(key, &sync.RWMutex{})
+	verifYield("KeyedRWMutex.TryRLockKey")
 	return m.TryRLock()
 }
 
 func (km *KeyedRWMutex[T]) RUnlockKey(key T) {
 	m, _ := km.m.LoadOrStore(key, &sync.RWMutex{})
+	verifRWRUnlocked(m)
 	m.RUnlock()
 }
 
